@@ -879,7 +879,7 @@ func (s *Slice) TryFuse(node *NodeInfo, err error) {
 		return
 	}
 
-	now := time.Now()
+	now := backendNow()
 	if !node.FuseStrategy.Trigger(now.Unix()) {
 		return
 	}
